@@ -105,7 +105,7 @@ def gen_scenario(rng):
     repo = c06.gen_history(rng, 14)
     objects.append({'kind': 'ghist', 'repo': mg.describe(repo), 'text': rng.choice(["BUG-7", "fix"])})
     objects.append({'kind': 'hdoc', 'level': rng.choice([1, 2, 2]), 'bound': rng.random() < 0.6,
-                    'target': rng.choice(['object', 'object', 'method'])})
+                    'target': rng.choice(['object', 'object', 'method', 'gadget', 'gadget', 'gadget-method'])})
     confs = [gen_conf(rng) for _ in range(rng.randint(3, 5))]
     requests = []
     cur_fmt = {}
